@@ -313,3 +313,34 @@ def systematic(Case, cwd, thorough=False):
     mk.add("size", [("tgt", "n[1-40],m1,n[20-60]"), ("xcl", ",".join("n%d" % v for v in range(2, 400, 2)))], "sep",
            note="long-list")
     return mk.out
+
+
+# ---------------------------------------------------------------------------------------------------------------------
+# library level: hostlist_find / hostlist_delete on lists whose records are RANGES (inside pdsh the working collective
+# is re-pushed name by name before the exclusions since the F02-2BR repair, so a defect of the range arithmetic in
+# hostrange_hn_within / hostname_create can hide behind that re-expansion; here the records stay as typed)
+def lib_histories(thorough=False):
+    """op histories `new; push EXPR; find X; delete X; hosts; find X` — one per member X of every look-alike family,
+    against the family typed as a list of names and typed with ranges; plus exclusions that are ranges themselves"""
+    out = []
+    for fam, members in LOOKALIKE.items():
+        forms = [",".join(members)]
+        if fam in RANGED and fam != "big-tail":      # (numeric tails > 2^25 inside a bracket: F16-BIGSUFFIX, C16's finding)
+            forms.append(RANGED[fam])
+        for form in forms:
+            for x in members:
+                out.append(["new", "push " + form, "find " + x, "delete " + x, "hosts 200", "find " + x, "count"])
+            # every member but one, as ONE exclusion expression
+            for i in range(0, len(members), 1 if thorough else 3):
+                rest = ",".join(m for m in members if m != members[i])
+                out.append(["new", "push " + form, "delete " + rest, "hosts 200", "find " + members[i]])
+    for t, xs in [("[8-12]", ["11", "[9-10]", "8", "12", "[08-09]", "011"]),
+                  ("[08-10],7", ["[09-10]", "9", "08", "7", "[7-8]"]),
+                  ("n[1-9],n[01-09]", ["n[3-5]", "n[03-05]", "n3,n03", "n[1-9]", "n[001-009]"]),
+                  ("a[1-3]b,a[1-3],a[1-3]b2", ["a2", "a2b", "a2b2", "a[1-3]b", "a[1-3]b[2]"]),
+                  ("foo[1-3],foo[2-4],bar,foo[1-4]", ["foo[2-3]", "foo1", "foo4", "bar", "foo[1-4]"]),
+                  ("mgmt,mgmt[1-3],login", ["mgmt2", "mgmt", "login7", "login", "mgmt[0-4]"]),
+                  ("node[0-2],alpha,n[00-03]", ["node0", "alpha,node0", "n[02,00]", "node[2,0],alpha", "n00"])]:
+        for x in xs:
+            out.append(["new", "push " + t, "find " + split_top(x)[0], "delete " + x, "hosts 200", "count"])
+    return out
